@@ -146,7 +146,7 @@ SWEEP_FNS = """
 (define (d9 x) (if (< x 3) 1 2))
 (define (e1 x) (if (= x 3) 1 2))
 (define (e2 x) (if (<= x 3) 1 2))
-(define (e3 x) (let loop ((i 0) (acc 0)) (if (< i x) (loop (+ i 1) (+ acc i)) acc)))
+(define (e3 x) (let loop ((i 0) (acc 0)) (if (if (< i x) (< i 20) #f) (loop (+ i 1) (+ acc i)) acc)))
 (define (e4 x) (if (null? x) 0 (+ 1 (e4 (cdr x)))))
 (define (e5 x y) (+ x y 1))
 (define (e6 x y) (- x y 1))
@@ -303,13 +303,16 @@ def run(ck):
         chosen = base + [c for c in extra if c not in base]
     else:
         chosen = configs
+    ck.log("proof stages done; %d histories/programs" % len(items))
     model = ck.coq_eval(lang.COQ_HEADER, [lang.model_expr(h) for h in items], shard=20)
+    ck.log("reference evaluated")
     nontrivial = set()
     per_cfg = {}
     for env in chosen:
         cases = [[lang.unit_to_steel(u) for u in h] for h in items]
         eng = ck.eval_cases(cases, fresh=True, env=env, batch=10, timeout_per_batch=90)
         name = cfg_name(env)
+        ck.log("configuration %s evaluated" % name)
         per_cfg[name] = 0
         for h, e_raw, m in zip(items, eng, model):
             e = c01.engine_render(e_raw)
@@ -319,6 +322,14 @@ def run(ck):
             nontrivial.add((m, name))
             per_cfg[name] += 1
             if e != m:
+                if "HANG" in e or "CRASH" in e:
+                    # no shrinking of a time-out / crash (every step would cost the time limit again)
+                    ck.cov["crash_or_hang"] = ck.cov.get("crash_or_hang", 0) + 1
+                    if ck.cov["crash_or_hang"] <= 4:
+                        case = {"history": [lang.unit_to_steel(u) for u in h], "config": env, "engine": e, "reference": m}
+                        ck.failing_input("configuration %s: engine %s where the reference gives an answer"
+                                         % (name, "did not answer within the time limit" if "HANG" in e else "crashed"), case, tag="cfg")
+                    continue
                 small = shrink_history(ck, h, env)
                 (e2, m2), = c01.compare(ck, [small], env=env)
                 # is it configuration dependent? run the shrunk history under the default configuration too
@@ -335,7 +346,9 @@ def run(ck):
         name = cfg_name(env)
         for (units, ref), e_raw, m in zip(mods, eng, mmodel):
             ck.cov["evaluations"] += 1
-            if "FUEL" in m:
+            if "FUEL" in m or m.startswith("ERR"):
+                # a module whose body fails does not load at all (none of its names is bound), whereas the
+                # reference unit keeps the definitions evaluated before the failure: not comparable
                 continue
             e = c01.engine_render(e_raw)
             nontrivial.add((m, name, "module"))
@@ -344,6 +357,7 @@ def run(ck):
                 ck.failing_input("configuration %s: a program with its definitions in a required module differs from the reference" % name,
                                  case, tag="mod")
     ck.cov["module_programs"] = len(mods)
+    ck.log("module family done")
     # ---- native tier vs interpreter on single operations, operands of every kind
     jit_sweep(ck, full=not jit_proved)
     for h, m in list(zip(items, model))[:3]:
